@@ -31,8 +31,10 @@ TEXTS = [
     b'sec { p = b include ( "selfsec.conf" ) } p = never',
     # annotations pending in front of items that are skipped (CFGF_COMMENTS | CFGF_IGNORE_UNKNOWN)
     b'/* c1 */ unk = 1 # c2\n unk2 { /* c3 */ x = 1 } /* c4 */ i = 2 # c5\n unk3 ( a ) /* c6 */ /* c7 */ unk4 += { 1 } # c8\n p = z /* c9 */ unk5 t { }',
+    # ... and names that are paths whose section step does not resolve
+    b'ghost|port = 1 "m=7|p" = x "t=nosuch|pl" = { a } "sec|in=zz|q" = y p = v ghost|sub { a = 1 }',
 ]
-TEXT_FLAGS = {2: F['COMMENTS'], 7: F['COMMENTS'] | F['IGNORE_UNKNOWN']}
+TEXT_FLAGS = {2: F['COMMENTS'], 7: F['COMMENTS'] | F['IGNORE_UNKNOWN'], 8: F['IGNORE_UNKNOWN']}
 TOKEN = re.compile(rb'"[^"]*"|/\*.*?\*/|#[^\n]*\n|\+=|[{}()=,]|[^\s{}()=,]+', re.S)
 FILES = ['file %s file %s' % (hx(b'inc.conf'), hx(b'p = inc1\npl += {inc2}\n')), 'file %s file %s' % (hx(b'inc2.conf'), hx(b'p = inc3\n')),
          'file %s file %s' % (hx(b'inc3.conf'), hx(b'sec { p = incsec in x { q = i3 } }\nt one { pl += {i4} }\n')),
@@ -67,10 +69,10 @@ def generate(rng, tier):
                 if tier == 'quick' and (k + ti + sp) % 2:
                     continue
                 n += 1
-                yield scenario('cut%d' % n, b' '.join(toks[:k]), sp, TEXT_FLAGS.get(ti, 0) if ti == 7 else 0, 'cut')
+                yield scenario('cut%d' % n, b' '.join(toks[:k]), sp, TEXT_FLAGS.get(ti, 0) if ti >= 7 else 0, 'cut')
                 n += 1
                 bad = r.pick([b'}', b'{', b'=', b',', b')', b'(', b'"unterminated', b'bogus'])
-                yield scenario('bad%d' % n, b' '.join(toks[:k] + [bad] + toks[k + 1:]), sp, TEXT_FLAGS.get(ti, 0) if ti == 7 else 0, 'corrupted')
+                yield scenario('bad%d' % n, b' '.join(toks[:k] + [bad] + toks[k + 1:]), sp, TEXT_FLAGS.get(ti, 0) if ti >= 7 else 0, 'corrupted')
     api_calls = ['setopt 0 %s %s' % (hx(b'p'), hx(b'v1')), 'setopt 0 %s %s' % (hx(b'pl'), hx(b'v2')), 'setmulti 0 %s %s %s' % (hx(b'pl'), hx(b'a'), hx(b'b')),
                  'setmulti 0 %s %s' % (hx(b'p'), hx(b'c')), 'addtsec 0 %s %s' % (hx(b't'), hx(b'n1')), 'setopt 0 %s %s' % (hx(b't=n1|p'), hx(b'v3')),
                  'rmtsec 0 %s %s' % (hx(b't'), hx(b'n1')), 'rmsec 0 ' + hx(b'm=0'), 'rmnsec 0 %s 0' % hx(b'm'), 'rmsec 0 ' + hx(b'sec'),
@@ -81,6 +83,7 @@ def generate(rng, tier):
                  'setstr_self 0 %s 1 0' % hx(b's'), 'setstr_self 0 %s 0 1' % hx(b'sl'), 'setstr_self 0 %s 2 0' % hx(b'sec|s'),
                  'failat 1', 'failat 2', 'failat 0', 'parse_buf 0 ' + hx(b'include("deep1.conf")\n'), 'parse_buf 0 ' + hx(b'sec { include("deep2.conf") }\n'),
                  'parse_buf 0 ' + hx(b'include("self.conf")\n'), 'parse_file 0 ' + hx(b'selfsec.conf'),
+                 'getopt 0 ' + hx(b'ghost|port'), 'getsec 0 ' + hx(b'm=7'), 'getv 0 str %s 0' % hx(b't=zz|p'), 'rmsec 0 ' + hx(b"t='no such'"), 'setint 0 %s 1 0' % hx(b'ghost|i'),
                  'setint 0 %s 1 0' % hx(b'i'), 'setmulti 0 %s %s %s' % (hx(b'pl'), hx(b'ok'), hx(b'-'))]
     # directed: an annotated option whose value was given explicitly, then bulk sets that succeed and that fail
     for k, calls in enumerate((['setlist 0 %s str %s' % (hx(b'sl'), hx(b'z')), 'setcomment 0 %s %s' % (hx(b'sl'), hx(b'note')), 'setmulti 0 %s %s %s' % (hx(b'sl'), hx(b'x'), hx(b'y')),
@@ -94,7 +97,7 @@ def generate(rng, tier):
             yield scenario('apid%d' % n, text, False, fl, 'api-directed', calls)
     for _ in range(150 if tier == 'quick' else 4000):
         n += 1
-        yield scenario('api%d' % n, r.pick([None, TEXTS[0], TEXTS[2]]), r.chance(1, 2), r.pick([0, F['COMMENTS']]), 'api',
+        yield scenario('api%d' % n, r.pick([None, TEXTS[0], TEXTS[2]]), r.chance(1, 2), r.pick([0, F['COMMENTS'], F['IGNORE_UNKNOWN'], F['IGNORE_UNKNOWN'] | F['COMMENTS']]), 'api',
                        [r.pick(api_calls) for _ in range(1 + r.below(6))])
 
 
